@@ -329,3 +329,143 @@ Qed.
 Theorem failed_debit_sufficient b from c :
   snd (partial_debit (bal_of (bk_bal b) from) c) = true -> failed_debit b from c = b.
 Proof. unfold failed_debit. destruct (partial_debit (bal_of (bk_bal b) from) c) as [h ok]. simpl. intros ->. reflexivity. Qed.
+
+(* ---------------------------------------------------------------- no panic (C10) ----------- *)
+
+Definition has_acc (s : dstate) : Prop := st_acc s <> None.
+
+Lemma find_account_state_ok sts id : forall start, Forall has_acc sts -> exists r, find_account_state sts id start = Ok r.
+Proof.
+  induction sts as [|s t IH]; intros start H; simpl; [eauto|]. inversion H as [|? ? Hs Ht]; subst.
+  unfold has_acc in Hs. destruct (st_acc s) as [a|]; [|contradiction]. destruct (da_id a =? id); [eauto|apply IH; assumption].
+Qed.
+
+Lemma has_acc_upd sts : forall pos f, Forall has_acc sts -> (forall s, st_acc (f s) = st_acc s) -> Forall has_acc (upd_state sts pos f).
+Proof.
+  induction sts as [|s t IH]; intros pos f H Hf; [exact H|]. inversion H; subst.
+  destruct pos; simpl; constructor; auto. unfold has_acc in *. rewrite Hf. assumption.
+Qed.
+
+Lemma add_share_to_account_ok sts dest share : Forall has_acc sts ->
+  exists sts', add_share_to_account sts dest share = Ok sts' /\ Forall has_acc sts'.
+Proof.
+  intros H. unfold add_share_to_account. destruct (find_account_state_ok sts (da_id dest) 0 H) as [[p|] Hr]; rewrite Hr.
+  - eexists. split; [reflexivity|]. apply has_acc_upd; [assumption|reflexivity].
+  - eexists. split; [reflexivity|]. apply Forall_app. split; [assumption|]. repeat constructor. discriminate.
+Qed.
+
+Lemma add_share_to_burn_has_acc sts bk share : Forall has_acc sts -> Forall has_acc (add_share_to_burn sts bk share).
+Proof.
+  intros H. unfold add_share_to_burn. destruct (find_burn_state sts 0).
+  - apply has_acc_upd; [assumption|reflexivity].
+  - apply Forall_app. split; [assumption|]. repeat constructor. discriminate.
+Qed.
+
+Lemma dc_any_neg_false_intro r : forall lo, dc_sorted lo r -> (forall d, 0 <= dc_amt d r) -> dc_any_neg r = false.
+Proof.
+  induction r as [|[d0 v] t IH]; intros lo Hs Hn; [reflexivity|].
+  simpl in Hs. destruct Hs as [H1 H2]. unfold dc_any_neg. cbn [existsb snd]. apply orb_false_iff. split.
+  - specialize (Hn d0). simpl in Hn. rewrite Z.eqb_refl in Hn. lia.
+  - apply (IH d0 H2). intros d. destruct (Z.eq_dec d d0) as [->|Hne].
+    + rewrite (dc_amt_above t d0 d0 H2) by lia. lia.
+    + specialize (Hn d). simpl in Hn. destruct (d =? d0) eqn:E; [lia|exact Hn].
+Qed.
+
+Lemma dc_sub_ok a b : dc_wf a -> dc_wf b -> (forall d, dc_amt d b <= dc_amt d a) -> exists r, dc_sub a b = Ok r.
+Proof.
+  intros Ha Hb Hle. unfold dc_sub.
+  assert (Hw : dc_wf (dc_add a (dc_neg b))) by (apply dc_add_wf; [assumption|apply dc_neg_sorted; assumption]).
+  rewrite (dc_any_neg_false_intro _ (-1) Hw); [eauto|].
+  intros d. rewrite dc_add_amt, dc_neg_amt; [specialize (Hle d); lia|assumption|apply dc_neg_sorted; assumption].
+Qed.
+
+Definition shares_total (shares : list dshare) : Z := zsum (map sh_share shares).
+Definition shares_ok (shares : list dshare) : Prop := Forall (fun sh => 0 <= sh_share sh) shares.
+
+Lemma shares_nonneg_total t : shares_ok t -> 0 <= zsum (map sh_share t).
+Proof. intros H. induction H as [|x l Hx Hl IH]; simpl; lia. Qed.
+
+Lemma trunc_share_le x s : 0 <= x -> 0 <= s -> dec_mul_trunc x s * P <= x * s.
+Proof.
+  intros Hx Hs. unfold dec_mul_trunc. pose proof P_pos as HP. rewrite chop_trunc_nonneg by nia.
+  pose proof (Z.div_mod (x * s) P ltac:(lia)). pose proof (Z.mod_pos_bound (x * s) P HP). lia.
+Qed.
+
+Lemma distribute_shares_no_panic shares inflow : dc_wf inflow -> dc_all_positive inflow = true ->
+  forall sts dflt evs S,
+  shares_ok shares -> 0 <= S -> S + shares_total shares <= P ->
+  Forall has_acc sts -> dc_wf dflt ->
+  (forall d, dc_amt d inflow * (P - S) <= dc_amt d dflt * P) ->
+  exists sts' dflt' evs', distribute_shares shares inflow sts dflt evs = Ok (sts', dflt', evs') /\
+    Forall has_acc sts' /\ dc_wf dflt' /\
+    forall d, dc_amt d inflow * (P - (S + shares_total shares)) <= dc_amt d dflt' * P.
+Proof.
+  intros Hin Hpos. induction shares as [|sh t IH]; intros sts dflt evs S Hok HS Htot Hacc Hd Hinv.
+  - cbn [distribute_shares]. exists sts, dflt, evs. unfold shares_total; cbn [map zsum]. split; [reflexivity|]. split; [assumption|]. split; [assumption|].
+    intros d. replace (S + 0) with S by lia. apply Hinv.
+  - inversion Hok as [|? ? Hs0 Hok']; subst. unfold shares_total in *. cbn [map zsum] in *.
+    pose proof (shares_nonneg_total t Hok') as Htn.
+    cbn [distribute_shares]. destruct (da_type (sh_dest sh) =? T_MAIN).
+    + (* skipped share: the remainder keeps more than the invariant needs *)
+      destruct (IH sts dflt evs S Hok' HS ltac:(lia) Hacc Hd Hinv) as (s' & d' & e' & Hr & A & B & C).
+      exists s', d', e'. split; [exact Hr|]. split; [assumption|]. split; [assumption|].
+      intros d. specialize (C d). pose proof (dc_all_positive_amt _ Hpos d). nia.
+    + destruct (calc_share_spec (sh_share sh) inflow Hin) as [Hcw Hca].
+      assert (Hle : forall d, dc_amt d (calc_share (sh_share sh) inflow) <= dc_amt d dflt).
+      { intros d. rewrite Hca, Hpos. pose proof (dc_all_positive_amt _ Hpos d) as Hx.
+        pose proof (trunc_share_le (dc_amt d inflow) (sh_share sh) Hx Hs0). specialize (Hinv d). pose proof P_pos. nia. }
+      destruct (dc_sub_ok _ _ Hd Hcw Hle) as [dflt1 Hsub]. rewrite Hsub.
+      destruct (dc_sub_spec _ _ _ Hd Hcw Hsub) as [Hd1 Hamt1].
+      assert (Hinv1 : forall d, dc_amt d inflow * (P - (S + sh_share sh)) <= dc_amt d dflt1 * P).
+      { intros d. destruct (Hamt1 d) as [-> _]. rewrite Hca, Hpos. pose proof (dc_all_positive_amt _ Hpos d) as Hx.
+        pose proof (trunc_share_le (dc_amt d inflow) (sh_share sh) Hx Hs0). specialize (Hinv d). nia. }
+      destruct (dc_is_zero (calc_share (sh_share sh) inflow)).
+      * destruct (IH sts dflt1 evs (S + sh_share sh) Hok' ltac:(lia) ltac:(lia) Hacc Hd1 Hinv1) as (s' & d' & e' & Hr & A & B & C).
+        exists s', d', e'. split; [exact Hr|]. split; [assumption|]. split; [assumption|].
+        intros d. specialize (C d). replace (S + (sh_share sh + zsum (map sh_share t))) with (S + sh_share sh + zsum (map sh_share t)) by lia. exact C.
+      * destruct (add_share_to_account_ok sts (sh_dest sh) (calc_share (sh_share sh) inflow) Hacc) as (sts1 & Ha & Hacc1). rewrite Ha.
+        destruct (IH sts1 dflt1 (evs ++ [(1, sh_name sh, calc_share (sh_share sh) inflow)]) (S + sh_share sh) Hok' ltac:(lia) ltac:(lia) Hacc1 Hd1 Hinv1)
+          as (s' & d' & e' & Hr & A & B & C).
+        exists s', d', e'. split; [exact Hr|]. split; [assumption|]. split; [assumption|].
+        intros d. specialize (C d). replace (S + (sh_share sh + zsum (map sh_share t))) with (S + sh_share sh + zsum (map sh_share t)) by lia. exact C.
+Qed.
+
+(* C10, distributor: for a sub-distributor whose shares are non-negative and together with the burn
+   share do not exceed 1 (what validation enforces), an all-positive inflow and states that all carry
+   an account (what the keeper writes, and — after F4 — what genesis import restores), one
+   StartDistributionProcess never panics: no DecCoins.Sub goes negative, no nil account is touched *)
+Theorem start_distribution_no_panic sd inflow sts bk :
+  dc_wf inflow -> dc_all_positive inflow = true ->
+  shares_ok (sd_shares sd) -> 0 <= sd_burn sd -> shares_total (sd_shares sd) + sd_burn sd <= P ->
+  Forall has_acc sts ->
+  exists sts' evs, start_distribution sd inflow sts bk = Ok (sts', evs) /\ Forall has_acc sts'.
+Proof.
+  intros Hin Hpos Hok Hb Htot Hacc. unfold start_distribution.
+  destruct (distribute_shares_no_panic (sd_shares sd) inflow Hin Hpos sts inflow [] 0 Hok ltac:(lia) ltac:(lia) Hacc Hin
+              ltac:(intros d; pose proof (dc_all_positive_amt _ Hpos d); nia)) as (sts1 & dflt1 & evs1 & Hr & Hacc1 & Hd1 & Hinv).
+  rewrite Hr.
+  destruct (calc_share_spec (sd_burn sd) inflow Hin) as [Hcw Hca].
+  assert (Hle : forall d, dc_amt d (calc_share (sd_burn sd) inflow) <= dc_amt d dflt1).
+  { intros d. rewrite Hca, Hpos. pose proof (dc_all_positive_amt _ Hpos d) as Hx.
+    pose proof (trunc_share_le (dc_amt d inflow) (sd_burn sd) Hx Hb). specialize (Hinv d). pose proof P_pos. nia. }
+  destruct (dc_sub_ok _ _ Hd1 Hcw Hle) as [dflt2 Hsub]. rewrite Hsub.
+  destruct (dc_sub_spec _ _ _ Hd1 Hcw Hsub) as [Hd2 _].
+  destruct (dc_is_zero (calc_share (sd_burn sd) inflow)).
+  - destruct (da_type (sd_primary sd) =? T_MAIN); [eauto|].
+    destruct (add_share_to_account_ok sts1 (sd_primary sd) dflt2 Hacc1) as (sts3 & Ha & Hacc3). rewrite Ha. eauto.
+  - pose proof (add_share_to_burn_has_acc sts1 bk (calc_share (sd_burn sd) inflow) Hacc1) as Hacc2.
+    destruct (da_type (sd_primary sd) =? T_MAIN); [eauto|].
+    destruct (add_share_to_account_ok _ (sd_primary sd) dflt2 Hacc2) as (sts3 & Ha & Hacc3). rewrite Ha. eauto.
+Qed.
+
+(* payouts never touch a nil account either *)
+Theorem payout_all_no_panic sts : forall b, Forall has_acc sts -> exists r, payout_all sts b = Ok r.
+Proof.
+  induction sts as [|s t IH]; intros b H; simpl; [eauto|]. inversion H as [|? ? Hs Ht]; subst.
+  unfold payout. unfold has_acc in Hs. destruct (st_acc s) as [a|]; [|contradiction].
+  destruct (negb (da_type a =? T_INTERNAL) && dc_any_gte1 (st_rem s)).
+  - destruct (dc_trunc (st_rem s)) as [ts ch]. destruct (st_burn s).
+    + destruct (burn b MAINADDR ts) as [ok b1]. destruct (IH b1 Ht) as [[t' b2] Hr]. rewrite Hr. eauto.
+    + destruct (transfer b MAINADDR (da_addr a) ts) as [ok b1]. destruct (IH b1 Ht) as [[t' b2] Hr]. rewrite Hr. eauto.
+  - destruct (IH b Ht) as [[t' b2] Hr]. rewrite Hr. eauto.
+Qed.
